@@ -19,9 +19,11 @@ SCRIPT_THREAD = 'Agent._execute_and_call'
 CLOCK_THREAD = 'Clock.run'
 
 
-def configure(devices, tick, output='rec'):
+def configure(devices, tick, output='rec', overrides=None):
+    conf = {'sleep_time': tick, 'manifest_file_name': None}
+    conf.update(overrides or {})
     env.configure(simnet.make_devices(devices), clock='real', output=output,
-                  overrides={'sleep_time': tick})
+                  overrides=conf)
 
 
 def minute_of_day():
@@ -79,7 +81,8 @@ class ClockProbe:
         ev = clk._event
         ev.on_fire = lambda waiters: events.append(
             ('fire', sched.S.vnow, waiters))
-        ev.on_wait = lambda name: events.append(('wait', sched.S.vnow, name))
+        ev.on_wait = lambda name: events.append(
+            ('wait', sched.S.vnow, name, sched.S.steps))
 
 
 def minute_of(t):
